@@ -245,3 +245,60 @@ def C06(tier, seed):
              rule="MC: toy unions of lg_k 1..2 over a 7-shape catalogue (empty, sparse, windowed at several offsets, both lg_k), every sequence with "
                   "repetition, to_sketch after every step; Trace: unions of lg_k 4,5,6,8,11 over catalogues of 10+ inputs (lg_k 4..8, all five "
                   "flavors, fresh / deserialized / previous merge results), random orders with repetition, to_sketch with full state after every step")
+
+
+# --------------------------------------------------------------------------- t-digest
+def tdigest_like(pid, tier, seed, check, with_spec_digests, assumptions, rule):
+    t0 = time.time()
+    clean(pid)
+    thorough = tier == "thorough"
+    vhbin = build_harness()
+    mc = [tlc_mc("TDigestMerge", "MC_TDigestMerge.cfg", workers=6)]
+    gen = []
+    paths = []
+    nruns = 0
+    if with_spec_digests:
+        cfg = "MC_TDigest_thorough.cfg" if thorough else "MC_TDigest.cfg"
+        dig = work(pid, "digests.json")
+        # the exhaustive run over all small digests both checks the query operators and emits the digests
+        g = tlc_gen("MC_TDigest", cfg, dig, workers=8, timeout=3000)
+        gen.append(g)
+        rep = vh(vhbin, "td-replay", {"in": dig, "out": work(pid, "tdl"), "shards": 4})
+        paths += [work(pid, "tdl.%d.ndjson" % i) for i in range(4)]
+        nruns += rep["runs"]
+    shards = 10
+    rec = vh(vhbin, "td-record", {"out": work(pid, "td"), "shards": shards, "seed": seed, "tier": tier})
+    paths += [work(pid, "td.%d.ndjson" % i) for i in range(shards)]
+    nruns += rec["runs"]
+    cfg = trace_cfg(pid, "TDigest", "CONSTANTS ", check)
+    ev, rej, st = validate_shards("Trace_TDigest", cfg, paths, jobs=12)
+    viol, hits = classify(pid, rej, "Trace_TDigest", cfg)
+    cov = {"states": sum(m["states"] for m in mc) + sum(g["states"] for g in gen) + st,
+           "transitions": sum(m["transitions"] for m in mc) + sum(g["transitions"] for g in gen) + ev,
+           "traces_validated_against_impl": nruns - len(rej), "trace_events_validated": ev,
+           "mc_instances": mc, "generators": gen,
+           "behaviours_replayed_into_impl": sum(g["behaviours"] for g in gen),
+           "samples": sample_events(paths[-3:], n=2, maxlen=4), "exhaustive": False, "rule": rule}
+    finish(pid, tier, seed, "model_checking", cov, t0, viol, assumptions, hits)
+
+
+def C10(tier, seed):
+    tdigest_like("C10", tier, seed, ["C10"], True,
+                 ["rank/quantile of the specification are exact rationals; the real f64 answers are compared with them by the harness with relative "
+                  "tolerance 1e-9 (the distinguishing gap between different rationals of the instance is > 1e-4)",
+                  "floating-point means, extremes and query results of recorded streams are order-projected per event",
+                  "the count of finite values and the exact extremes of a stream are supplied by the driver (it generates the stream)"],
+                 "MC: TDigest.tla rank/quantile operators on every valid digest with <=3 centroids, means/min/max 0..3 (0..4 thorough), weights {1,2,5} "
+                 "({1,2,3,5}), half-integer v grid and q = i/4W (range, monotone, end points, rank(quantile(q)) resolution); TDigestMerge.tla: every merge policy; "
+                 "Gen: every digest with a heavy first/last centroid is loaded from an image and every grid answer compared with the exact rational; "
+                 "Trace: streams of 7 shapes x k in {10,29,30,100,200,500} with merges, freeze/unfreeze, serialize/deserialize, 41-point v and q grids, cdf/pmf, empty split list")
+
+
+def C15(tier, seed):
+    tdigest_like("C15", tier, seed, ["C15"], False,
+                 ["the clause 'rank error within a few multiples of q(1-q)/k' is a numeric accuracy statement over populations of streams and is NOT decided",
+                  "exact-to-one-sample at the extremes is checked when the extreme value was offered once (with duplicates of the extreme the digest may fold them into the next centroid)",
+                  "the centroid list is read from serialize(); floats are order-projected per event"],
+                 "MC: TDigestMerge.tla (weights sum, means sorted, inside [min,max], exact extremes, singleton end centroids) for every merge policy; "
+                 "Trace: streams of 1..12k values (1e6 thorough) of 7 shapes, k in {10,29,30,100,200,500} (65535 thorough), merge trees of up to 16 digests: "
+                 "after every compress the centroid count <= 2k+30, image size = 32+16c, weights sum to total_weight = values offered, means sorted inside [min,max], extremes exact")
